@@ -166,6 +166,12 @@ def _run(case, model):
         elif kind == "add_cc":
             t = TYPES[int(op["t"]) % 3]
             comp = t(cls, model)
+            holders = [cj for cj in sorted(comps) if cj != ci and t in comps[cj]]
+            if op.get("share") and holders:
+                # the very component OBJECT that another class of the hierarchy holds is attached here too (one shared
+                # configuration object): the other class keeps it
+                comp = comps[holders[int(op.get("share")) % len(holders)]][t]
+                labels.add("component-object-shared-by-two-classes")
             if t in comps[ci]:
                 expect_raises("class-duplicate-attach", ValueError, cls.add_class_component, comp)
                 labels.add("dup-attach")
@@ -239,8 +245,8 @@ def strategy(tier):
     cls = wone_of(st.integers(0, 2), st.integers(0, 2), st.integers(0, 8))
     t = wone_of(st.just(0), st.integers(0, 2))
     ops = wone_of(
-        st.fixed_dictionaries({"op": st.just("add_cc"), "cls": cls, "t": t}),
-        st.fixed_dictionaries({"op": st.just("add_cc"), "cls": cls, "t": t}),
+        st.fixed_dictionaries({"op": st.just("add_cc"), "cls": cls, "t": t, "share": st.sampled_from([0, 0, 1, 2])}),
+        st.fixed_dictionaries({"op": st.just("add_cc"), "cls": cls, "t": t, "share": st.sampled_from([0, 0, 1, 2])}),
         st.fixed_dictionaries({"op": st.just("rem_cc"), "cls": cls, "t": t}),
         st.fixed_dictionaries({"op": st.just("set_tag"), "cls": cls, "v": st.integers(0, 5)}),
         st.fixed_dictionaries({"op": st.just("set_tag"), "cls": cls, "v": st.integers(0, 5)}),
